@@ -4,9 +4,40 @@
 
 pub mod models;
 pub mod util;
+pub mod rfc9180;
 
 #[cfg(kani)]
+pub mod c01;
+#[cfg(kani)]
+pub mod c02;
+#[cfg(kani)]
+pub mod c03;
+#[cfg(kani)]
 pub mod c04;
+#[cfg(kani)]
+pub mod c05;
+#[cfg(kani)]
+pub mod c06;
+#[cfg(kani)]
+pub mod c07;
+#[cfg(kani)]
+pub mod c10;
+#[cfg(kani)]
+pub mod c11;
+#[cfg(kani)]
+pub mod c12;
+#[cfg(kani)]
+pub mod c13;
+#[cfg(kani)]
+pub mod c14;
+#[cfg(kani)]
+pub mod c15;
+#[cfg(kani)]
+pub mod c16;
+#[cfg(kani)]
+pub mod c18;
+#[cfg(kani)]
+pub mod tables;
 
 // filled in by `run.py --replay` with a Kani concrete-playback unit test
 #[cfg(kani)]
